@@ -613,7 +613,7 @@ fn layout(buf: &[u8], n: usize) -> Layout {
     }
 }
 
-fn v0_footer(hash: &H, bnds: &[u32], hashes: &[H]) -> Vec<u8> {
+pub fn v0_footer(hash: &H, bnds: &[u32], hashes: &[H]) -> Vec<u8> {
     let mut f = Vec::new();
     f.extend_from_slice(b"XETBLOB");
     f.push(0);
